@@ -173,7 +173,13 @@ def compute(case):
                     o.append([[fj(x) for x in nb.probs], fj(p)])
                 return o
             r["belief_next"] = guarded(bnext)
-            r["belief_reward"] = guarded(lambda: fj(bmdp.reward(btup, a, None)))
+            # reward(s, a, ns) is called the way MDP code calls it: with an actual successor belief (every one of them)
+            def brew():
+                succ = list(bmdp.next_state_dist(btup, a).keys())
+                return [fj(bmdp.reward(btup, a, nb)) for nb in succ]
+            rws = guarded(brew)
+            r["belief_reward"] = rws if isinstance(rws, dict) else rws[0]
+            r["belief_reward_by_successor"] = rws
             r["belief_actions"] = guarded(lambda: [aid[x] for x in bmdp.actions(btup)])
             out["actions"].append(r)
         if snap != (type(bdict).__name__, repr(list(bdict.items())), type(bvec).__name__, repr(list(bvec)), repr(btup)):
